@@ -43,6 +43,10 @@ def main():
     elif args and args[0] == "--round10":
         src_root, tag = "/tmp/mut10", "r10"
         args = args[1:]
+    m = re.fullmatch(r"--round(\d+)", args[0]) if args else None
+    if m and not tag:
+        src_root, tag = f"/tmp/mut{m.group(1)}", f"r{m.group(1)}"
+        args = args[1:]
     only = args
     head = sh("git -C /repo rev-parse --short HEAD")[1].strip()
     for pid in sorted(os.listdir(src_root)):
